@@ -238,7 +238,8 @@ def main(tier):
                              sq.SqliteMap.nodes_nbrto, sq.SqliteMap.edges_nbrto, sq.SqliteMap.node_coordinates, sq.SqliteMap.edges_closeto,
                              inmem.InMemMap.nodes_nbrto, inmem.InMemMap.edges_nbrto, inmem.InMemMap.all_edges, inmem.InMemMap.all_nodes,
                              inmem.InMemMap.bb, inmem.InMemMap._items_in_bb)
-    budget = 100 if tier == 'quick' else 900
+    from symx.common import fit_budget
+    budget = fit_budget(len(instances(tier)), tier, 100, 100)
     res = run_instances(run_instance, [i + ((None,) if i[0] in ('data', 'box_exact') else ()) + (budget,) for i in instances(tier)])
     rep.bounds = dict(graphs="2-3 (4) integer-labelled nodes, symbolic coordinates, the edge sets g2/g3/g3_deadend(/g4)", box="symbolic box for all_nodes(bb)",
                       matcher="edge states, SimpleMatcher/DistanceMatcher, T=2, unit-square layout with symbolic observations, max_dist_init=None")
